@@ -26,6 +26,12 @@
 (* the suboptimality Obj(loose) - Obj(fit), Obj(fit) being certified       *)
 (* optimal by the kkt clauses), nb (the loose point is not better than     *)
 (* the certified optimum).                                                 *)
+(* Units: a case may carry a unit exponent ue; the estimator then sees the *)
+(* targets y * 2^ue (and the l1 weight * 2^ue: the same problem in another *)
+(* unit).  The harness logs in the unit of the case, so every clause is    *)
+(* the same integer relation for every unit (KKT residuals scale with the  *)
+(* unit, gap and objective with its square).  "loose0" repeats the loose   *)
+(* fit in unit 1: clauses res..stop and equiv (same fit up to the unit).   *)
 (*                                                                         *)
 (* Named deviation "enet_intercept_ymean": the unrepaired elastic net      *)
 (* sets B = mean(y) and optimises W for that B only (X is not centred).    *)
@@ -119,11 +125,13 @@ IcptOk(ev, rm) == IcptStrictR(ev, rm) \/ (DevYMean /\ IcptYMean(ev))
 
 GapOk(ev) == Kind = "ols" \/ ev.gap >= -GapSl
 
-\* the documented stopping rule: leaving the loop before the budget means gap < tolerance * ||y||^2
+\* the documented stopping rule: leaving the loop before the budget means gap < tolerance * ||y_centred||^2
+\* (targets centred when an intercept is fitted).  All logged numbers are in the unit of the case (the harness logs
+\* at scale S * 2^-ue, the gap at S * 2^-2ue), so the bound is the same integer expression for every unit.
 StopOk(ev, te) ==
   Kind = "ols" \/
     /\ ev.steps >= 1 /\ ev.steps <= In.maxit
-    /\ ev.steps < In.maxit => ev.gap <= TolGap(Y, FALSE, te, S) + GapSl
+    /\ ev.steps < In.maxit => ev.gap <= TolGap(Y, In.icpt, te, S) + GapSl
 
 PSlack(ev, jj) == (ColAbs(X, jj) + 1) \div 2 + AlK(ev, jj) + (PTh(Pen, N) + PL2(Pen, N)) \div PD(Pen) + 8
 GapN(ev) == IF Kind = "ols" THEN 0 ELSE N * Max2(ev.gap, 0)
@@ -222,6 +230,28 @@ LooseFirstFalse(ev) ==
                ELSE "none"
 
 -----------------------------------------------------------------------------
+(* unit equivariance: the loose fit repeated with the targets expressed in unit 1 instead of 2^ue (same problem, l1  *)
+(* weight rescaled) must be the same fit up to the unit -- both are logged in their own unit, hence equal numbers.  *)
+EqSl == 2
+EquivOk(ev, ev0) ==
+  /\ \A jj \in 1..P : \A tt \in 1..T : Abs(ev.w[jj][tt] - ev0.w[jj][tt]) <= EqSl
+  /\ \A tt \in 1..T : Abs(ev.b[tt] - ev0.b[tt]) <= EqSl
+  /\ \A i \in 1..N : \A tt \in 1..T : Abs(ev.yhat[i][tt] - ev0.yhat[i][tt]) <= EqSl
+  /\ Abs(ev.gap - ev0.gap) <= EqSl
+
+Loose0FirstFalse(ev) ==
+  IF ~(e = 3 /\ Case.ev[2].ev = "loose" /\ In.ue /= 0) THEN "order"
+  ELSE IF ~(ev.res = "ok" /\ ev.sane) THEN "res"
+  ELSE IF ~ShapeOk(ev) THEN "shape"
+  ELSE IF ~RangeOk(ev) THEN "range"
+  ELSE IF ~PredictOk(X, ev.w, ev.b, ev.yhat, AlP(ev)) THEN "predict"
+  ELSE IF ~B0Ok(ev) THEN "b0"
+  ELSE IF ~GapOk(ev) THEN "gap"
+  ELSE IF ~StopOk(ev, In.lte) THEN "stop"
+  ELSE IF ~EquivOk(Case.ev[2], ev) THEN "equiv"
+  ELSE "none"
+
+-----------------------------------------------------------------------------
 TFit ==
   /\ HasEv("fit") /\ e = 1
   /\ FitFirstFalse(Case.ev[e]) = "none"
@@ -232,21 +262,28 @@ TLoose ==
   /\ LooseFirstFalse(Case.ev[e]) = "none"
   /\ Adv
 
+TLoose0 ==
+  /\ HasEv("loose0")
+  /\ Loose0FirstFalse(Case.ev[e]) = "none"
+  /\ Adv
+
 DevUsed == Fit1.res = "ok" /\ Fit1.sane /\ ShapeOk(Fit1) /\ Premise /\ RangeOk(Fit1) /\ ~IcptStrict(Fit1)
 
 Accept ==
   /\ e = Len(Case.ev) + 1
   /\ Len(Case.ev) >= 1 /\ Fit1.ev = "fit"
+  /\ (Kind /= "ols" /\ In.lte > 0) => Len(Case.ev) >= (IF In.ue = 0 THEN 2 ELSE 3)     \* no event may be missing
   /\ IF DevUsed THEN OkDev(Case.id, <<"enet_intercept_ymean">>) ELSE Ok(Case.id)
   /\ e' = e + 1 /\ UNCHANGED <<c, vars>>
 
 Stuck ==
   /\ e <= Len(Case.ev)
-  /\ ~(ENABLED TFit \/ ENABLED TLoose)
+  /\ ~(ENABLED TFit \/ ENABLED TLoose \/ ENABLED TLoose0)
   /\ Fail(Case.id, <<e, Case.ev[e].ev,
           IF Case.ev[e].ev = "fit" THEN FitFirstFalse(Case.ev[e])
-          ELSE IF Case.ev[e].ev = "loose" THEN LooseFirstFalse(Case.ev[e]) ELSE "unexplained">>)
+          ELSE IF Case.ev[e].ev = "loose" THEN LooseFirstFalse(Case.ev[e])
+          ELSE IF Case.ev[e].ev = "loose0" THEN Loose0FirstFalse(Case.ev[e]) ELSE "unexplained">>)
   /\ e' = Len(Case.ev) + 2 /\ UNCHANGED <<c, vars>>
 
-TraceNext == TFit \/ TLoose \/ Accept \/ Stuck
+TraceNext == TFit \/ TLoose \/ TLoose0 \/ Accept \/ Stuck
 =============================================================================
